@@ -15,6 +15,7 @@ R-C15-5  (syntax) identifiers are compared structurally, never through their pri
 """
 import re
 import os
+from collections import Counter
 from .common import walk, src, strip, AnchorError, load_table, REPO
 from .c11 import parents_map
 from .lexer import LexerModel
@@ -258,6 +259,85 @@ def run(chk, facts):
                f"{k_[0]} applies `.{k_[1]}(..)` to text ({cnt} site(s), {rev[0] if rev else 0} reviewed): if that text is a user-chosen name, a name that merely begins / ends with "
                "or contains another one is treated as if it were that name", facts.loc_of(f_) if f_ else None)
     chk.floor("R-C15-6", len(got_t), 10, "textual operations in check:: / generate::")
+    # ---------------- R-C15-7 ----------------
+    # the order of what is emitted does not depend on how the user spelled a name: every ordering decision in the generator (sort, max/min,
+    # ordered map / set, cmp) is found on MIR with the *type* of its key; a key type that can carry a name (String, str, StringName,
+    # TrueName, Name, Core) must be reviewed below - benign when only generator-chosen names reach it, a finding otherwise
+    chk.rule("R-C15-7", "ordering decisions in the generator do not look at user-chosen names (key types on MIR; name-carrying keys reviewed)")
+    from .common import owner_root
+    mir = facts.mir
+    ORDER = re.compile(r"(Itertools::sorted(_by(_key)?|_unstable(_by(_key)?)?)?$|::sort(_unstable)?(_by(_key)?|_by_cached_key)?$|BTree(Map|Set)::<[^>]*>::(insert|entry)$|Iterator::(max|min)(_by(_key)?)?$|"
+                       r"::cmp$|::partial_cmp$|::is_sorted)")
+    NAMEY = re.compile(r"String\b|\bstr\b|StringName|TrueName|check::name::Name|node::Core\b|OsString|PathBuf")
+    REVIEWED_ORDER = {
+        ("generate::convert::state::Imports::add_from_import", "sorted_by_key"): ("benign", 1, "the names imported from one support module (`from typing import Optional, Union`): "
+                                                                                  "all registrations pass literals of the generator (R-C16-1), never a user name"),
+        ("generate::convert::state::Imports::add_from_import", "insert"): ("benign", 2, "ordered map keyed by the support module name (`typing`, `abc`): generator literals (R-C16-1)"),
+        ("<check::name::Name as generate::name::ToPy>::to_py", "sorted"): ("finding", 1, "the members of a union are emitted in the order of their *names*: `Union[Abc, Zed]` becomes `Union[Zed, Zzz]` after "
+                                                                           "renaming Abc to Zzz, where the renamed output of the original is `Union[Zzz, Zed]`"),
+        ("<check::name::string_name::StringName as generate::name::ToPy>::to_py", "sorted"): ("finding", 1, "the members of a written `Union[..]` type are re-ordered by name before they are emitted"),
+    }
+
+    def split_top(s_):
+        s_ = s_.strip()
+        if s_.startswith("[") and s_.endswith("]"):
+            s_ = s_[1:-1]
+        out_, depth_, cur_ = [], 0, ""
+        for ch in s_:
+            if ch in "<([{":
+                depth_ += 1
+            elif ch in ">)]}":
+                depth_ -= 1
+            if ch == "," and depth_ == 0:
+                out_.append(cur_.strip())
+                cur_ = ""
+            else:
+                cur_ += ch
+        if cur_.strip():
+            out_.append(cur_.strip())
+        return out_
+    n_order = 0
+    seen_order = Counter()
+    loc_order = {}
+    for b in mir.fns.values():
+        if not b.file.startswith("src/generate/"):
+            continue
+        for bb, t in b.calls():
+            m_ = ORDER.search(t.callee)
+            if not m_:
+                continue
+            short = t.callee.split("::")[-1]
+            ga = split_top(t.gargs or "")
+            if short.endswith("_by_key") or short.endswith("_by_cached_key"):
+                key_ty = ga[1] if len(ga) > 1 else "?"
+            elif "BTree" in t.callee:
+                key_ty = ga[0] if ga else "?"
+            elif short in ("sorted", "sorted_unstable", "max", "min"):
+                key_ty = b.locals[t.dst.local] if t.dst is not None and t.dst.local < len(b.locals) else "?"
+            elif short in ("sort", "sort_unstable", "cmp", "partial_cmp", "is_sorted"):
+                key_ty = t.argt[0] if t.argt else "?"
+            else:
+                key_ty = "comparator:" + (ga[-1] if ga else "?")
+            n_order += 1
+            owner = owner_root(mir, syn, b.path)
+            namey = bool(NAMEY.search(key_ty)) or key_ty.startswith("comparator:") or key_ty == "?"
+            if not namey:
+                chk.ob("R-C15-7", f"order:{owner}|{short}|{n_order}", True, f"{owner}: {short} over a key of type `{key_ty[:60]}` - no name in it", f"{b.file}:{t.line}")
+                continue
+            seen_order[(owner, short)] += 1
+            loc_order[(owner, short)] = (f"{b.file}:{t.line}", key_ty)
+    for k_, cnt in sorted(seen_order.items()):
+        rev = REVIEWED_ORDER.get(k_)
+        loc_, kt = loc_order[k_]
+        if rev is None or cnt > rev[1]:
+            chk.ob("R-C15-7", f"order:{k_[0]}|{k_[1]}", False,
+                   f"{k_[0]}: `{k_[1]}` orders by a key of type `{kt[:80]}` ({cnt} site(s), {rev[1] if rev else 0} reviewed): if a user-chosen name reaches that key, the order of the "
+                   "emitted code depends on how the user spelled it (renaming a field or a method can move it)", loc_)
+        elif rev[0] == "finding":
+            chk.ob("R-C15-7", f"order:{k_[0]}|{k_[1]}", False, f"{k_[0]}: `{k_[1]}`: {rev[2]}", loc_)
+        else:
+            chk.ob("R-C15-7", f"order:{k_[0]}|{k_[1]}", True, f"{k_[0]}: `{k_[1]}` over `{kt[:50]}` - reviewed: {rev[2]}", loc_)
+    chk.floor("R-C15-7", n_order, 4, "ordering decisions in the generator")
     chk.notes.append("C15: census of special strings against the documented table; lexer charset; call-resolution order.")
 
 
